@@ -25,6 +25,9 @@ CONSTANTS
   JumpToFirstAvailable = TRUE
   ReportOnlyIfBitSet = TRUE
   ResendWithoutCheck = TRUE
+  RejoinAtIndex = FALSE
+  DropPausePair = FALSE
+  TrackRepeat = FALSE
 SPECIFICATION Spec
 VIEW View
 INVARIANTS C03_NoLostWake C04_BitsTrueWhenCalm
